@@ -61,6 +61,7 @@ type c06Result struct {
 	aggs   []*stack.Aggregated
 	html   [][]byte
 	shtml  []byte
+	shtml0 []byte // the same rendering, made before any aggregation
 	err    string
 	panic_ string
 }
@@ -83,6 +84,9 @@ func c06Exec(b []byte, ex *C06Extra, nameArgs bool, mode string) (res c06Result)
 	if s == nil {
 		return
 	}
+	var h0 bytes.Buffer
+	_ = s.ToHTML(&h0, "")
+	res.shtml0 = maskHTML(h0.Bytes())
 	for _, lvl := range []stack.Similarity{stack.ExactFlags, stack.ExactLines, stack.AnyPointer, stack.AnyValue} {
 		a := s.Aggregate(lvl)
 		res.aggs = append(res.aggs, a)
@@ -230,6 +234,10 @@ func c06Check(c *Case, ex *C06Extra, cov *Cov) []*Violation {
 		if cov != nil {
 			cov.Evaluations++
 			cov.AddDigest(got.digest())
+		}
+		if !bytes.Equal(got.shtml0, got.shtml) && !seen["C06.history"] {
+			seen["C06.history"] = true
+			vs = append(vs, &Violation{Prop: "C06", Clause: "C06.history", Case: c, Msg: fmt.Sprintf("map order %q: Snapshot.ToHTML renders differently after the Aggregate/ToHTML calls than before them (first difference at byte %d): the result depends on earlier calls in the same process", mode, FirstDiff(got.shtml0, got.shtml))})
 		}
 		if i == 0 {
 			ref = got
